@@ -876,237 +876,6 @@ Proof.
 Qed.
 
 (* ------------------------------------------------------------------------------------- *)
-(* Part 4 — whole documents *)
-
-Fixpoint mp_norm (v : jv) : jv :=
-  match v with
-  | JFloat f => mp_norm_f32 f
-  | JDouble f => mp_norm_f64 f
-  | JArr l => JArr (map mp_norm l)
-  | JObj l => JObj (map (fun kv => (fst kv, mp_norm (snd kv))) l)
-  | _ => v
-  end.
-
-Definition str_ok (s : bytes) : Prop :=
-  Forall (fun b => (b < 256)%N) s /\ Z.of_nat (length s) <= max_string_length.
-
-Fixpoint mp_ok (v : jv) : Prop :=
-  match v with
-  | JNull | JBool _ => True
-  | JInt z => - 2 ^ 63 <= z < 2 ^ 64
-  | JFloat f => f32_ok f
-  | JDouble f => f64_ok f
-  | JStr s => str_ok s
-  | JRaw _ => False
-  | JArr l => Z.of_nat (length l) < 2 ^ 32 /\ fold_right (fun x P => mp_ok x /\ P) True l
-  | JObj l => Z.of_nat (length l) < 2 ^ 32 /\
-              fold_right (fun kv P => (str_ok (fst kv) /\ mp_ok (snd kv)) /\ P) True l
-  end.
-
-Lemma fold_and_In : forall (A : Type) (Q : A -> Prop) (l : list A),
-  fold_right (fun x P => Q x /\ P) True l -> forall x, In x l -> Q x.
-Proof.
-  intros A Q l. induction l as [|y l IH]; intros H x Hx; cbn in *; [contradiction|].
-  destruct H as [Hy Hl]. destruct Hx as [<-|Hx]; auto.
-Qed.
-
-Lemma nesting_In : forall (A : Type) (g : A -> nat) (l : list A) x, In x l ->
-  (g x <= fold_right (fun x m => Nat.max (g x) m) 0 l)%nat.
-Proof.
-  intros A g l. induction l as [|y l IH]; intros x Hx; cbn in *; [contradiction|].
-  destruct Hx as [<-|Hx]; [lia|]. specialize (IH x Hx). lia.
-Qed.
-
-Lemma mp_int_nonempty : forall z, (1 <= length (mp_int z))%nat.
-Proof.
-  intros z. unfold mp_int, mp_uint.
-  destruct (0 <? z).
-  - destruct (z <=? 0x7F); [cbn; lia|]. destruct (z <=? 0xFF); [cbn; lia|].
-    destruct (z <=? 0xFFFF); [cbn [length]; lia|]. destruct (z <=? 0xFFFFFFFF); cbn [length]; lia.
-  - destruct (-0x20 <=? z); [cbn; lia|]. destruct (-0x80 <=? z); [cbn; lia|].
-    destruct (-0x8000 <=? z); [cbn [length]; lia|]. destruct (-0x80000000 <=? z); cbn [length]; lia.
-Qed.
-
-Lemma mp_f32_nonempty : forall f, (1 <= length (mp_f32 f))%nat.
-Proof.
-  intros f. unfold mp_f32. destruct (f32_fits_i64 f); [cbv zeta; destruct (f_eq _ _)|];
-    try apply mp_int_nonempty; cbn [length]; lia.
-Qed.
-
-Lemma mp_str_nonempty : forall s, (1 <= length (mp_str s))%nat.
-Proof.
-  intros s. unfold mp_str. rewrite app_length, mp_str_header_length.
-  destruct (_ <? 32); [lia|]. destruct (_ <? 256); [lia|]. destruct (_ <? 65536); lia.
-Qed.
-
-Lemma mp_ser_nonempty : forall v, mp_ok v -> (1 <= length (mp_ser v))%nat.
-Proof.
-  intros v H. destruct v; cbn [mp_ser].
-  - cbn; lia.
-  - cbn; lia.
-  - apply mp_int_nonempty.
-  - apply mp_f32_nonempty.
-  - unfold mp_f64. destruct (f_eq _ _); [apply mp_f32_nonempty|cbn [length]; lia].
-  - apply mp_str_nonempty.
-  - destruct H.
-  - rewrite app_length, mp_arr_header_length.
-    destruct (_ <? 16); [lia|]. destruct (_ <? 65536); lia.
-  - rewrite app_length, mp_map_header_length.
-    destruct (_ <? 16); [lia|]. destruct (_ <? 65536); lia.
-Qed.
-
-Lemma body_nil : forall cf pv' Lz rest k,
-  mp_body cf pv' Lz None (mk (bz 0xC0 :: rest) k) = (Ok, JNull, mk rest (k + 1)).
-Proof. reflexivity. Qed.
-Lemma body_false : forall cf pv' Lz rest k,
-  mp_body cf pv' Lz None (mk (bz 0xC2 :: rest) k) = (Ok, JBool false, mk rest (k + 1)).
-Proof. reflexivity. Qed.
-Lemma body_true : forall cf pv' Lz rest k,
-  mp_body cf pv' Lz None (mk (bz 0xC3 :: rest) k) = (Ok, JBool true, mk rest (k + 1)).
-Proof. reflexivity. Qed.
-
-Theorem mp_roundtrip_gen : forall cf, use_double cf = true -> forall L v, mp_ok v ->
-  (nesting v <= L)%nat -> forall rest k,
-  mp_parse cf L None true (mk (mp_ser v ++ rest) k) =
-    (Ok, mp_norm v, mk rest (k + N.of_nat (length (mp_ser v)))).
-Proof.
-  intros cf UD. induction L as [|L IH]; intros v Hok Hn rest k; rewrite mp_parse_eq.
-  - destruct v; cbn [mp_ser mp_norm]; cbn [mp_ok] in Hok.
-    + apply body_nil.
-    + destruct b; [apply body_true|apply body_false].
-    + apply mp_int_body; exact Hok.
-    + apply mp_f32_body; exact Hok.
-    + apply mp_f64_body; assumption.
-    + apply mp_str_body; apply Hok.
-    + destruct Hok.
-    + cbn [nesting] in Hn. lia.
-    + cbn [nesting] in Hn. lia.
-  - destruct v; cbn [mp_ser mp_norm]; cbn [mp_ok] in Hok.
-    + apply body_nil.
-    + destruct b; [apply body_true|apply body_false].
-    + apply mp_int_body; exact Hok.
-    + apply mp_f32_body; exact Hok.
-    + apply mp_f64_body; assumption.
-    + apply mp_str_body; apply Hok.
-    + destruct Hok.
-    + destruct Hok as [Hlen Hall]. cbn [nesting] in Hn. rewrite <- app_assoc.
-      rewrite arr_header_body by lia. unfold arr_payload. cbn [is_O pv_of].
-      rewrite clip_count_exact.
-      2:{ rewrite app_length.
-          pose proof (concat_length_ge jv mp_ser l
-                        (fun x Hx => mp_ser_nonempty x (fold_and_In jv mp_ok l Hall x Hx))). lia. }
-      rewrite (array_loop_rt (mp_parse cf L) mp_norm l).
-      2:{ intros x Hx rest' k'. apply IH.
-          - exact (fold_and_In jv mp_ok l Hall x Hx).
-          - pose proof (nesting_In jv nesting l x Hx). lia. }
-      cbn [app]. rewrite reads_app, app_length. reflexivity.
-    + destruct Hok as [Hlen Hall]. cbn [nesting] in Hn. rewrite <- app_assoc.
-      rewrite map_header_body by lia. unfold map_payload. cbn [is_O pv_of].
-      change (map (fun kv : bytes * jv => mp_str (fst kv) ++ mp_ser (snd kv)) l)
-        with (map ser_member l).
-      pose proof (fold_and_In _ (fun kv => str_ok (fst kv) /\ mp_ok (snd kv)) l Hall) as Hin.
-      rewrite clip_count_exact.
-      2:{ rewrite app_length.
-          assert (length l <= length (concat (map ser_member l)))%nat.
-          { apply concat_length_ge. intros x Hx. unfold ser_member. rewrite app_length.
-            pose proof (mp_str_nonempty (fst x)). lia. }
-          lia. }
-      rewrite (object_loop_rt (mp_parse cf L) mp_norm l).
-      2:{ intros x Hx. destruct (Hin x Hx) as [[_ Hk] Hv]. split; [exact Hk|].
-          intros rest' k'. apply IH; [exact Hv|].
-          pose proof (nesting_In _ (fun kv => nesting (snd kv)) l x Hx). cbv beta in *. lia. }
-      cbn [app]. rewrite reads_app, app_length. reflexivity.
-Qed.
-
-Theorem mp_roundtrip : forall cf v, use_double cf = true -> mp_ok v -> forall L rest,
-  (nesting v <= L)%nat ->
-  mp_parse cf L None true {| m_rest := mp_ser v ++ rest; m_reads := 0 |}
-    = (Ok, mp_norm v, {| m_rest := rest; m_reads := N.of_nat (length (mp_ser v)) |}).
-Proof.
-  intros cf v UD Hok L rest Hn.
-  exact (mp_roundtrip_gen cf UD L v Hok Hn rest 0%N).
-Qed.
-
-Corollary mp_run_roundtrip : forall cf v L, use_double cf = true -> mp_ok v -> (nesting v <= L)%nat ->
-  mp_run cf None L (mp_ser v) =
-    {| mp_err := Ok; mp_doc := mp_norm v;
-       mp_rd := {| m_rest := []; m_reads := N.of_nat (length (mp_ser v)) |} |}.
-Proof.
-  intros cf v L UD Hok Hn. unfold mp_run.
-  pose proof (mp_roundtrip cf v UD Hok L [] Hn) as H. rewrite app_nil_r in H. rewrite H.
-  pose proof (mp_ser_nonempty v Hok) as Hne.
-  destruct (mp_ser v) as [|b t]; [cbn in Hne; lia|]. reflexivity.
-Qed.
-
-(* C16 for MessagePack: the reader stops exactly after one object, whatever follows *)
-Corollary mp_run_roundtrip_trailing : forall cf v L rest, use_double cf = true -> mp_ok v ->
-  (nesting v <= L)%nat ->
-  mp_run cf None L (mp_ser v ++ rest) =
-    {| mp_err := Ok; mp_doc := mp_norm v;
-       mp_rd := {| m_rest := rest; m_reads := N.of_nat (length (mp_ser v)) |} |}.
-Proof.
-  intros cf v L rest UD Hok Hn. unfold mp_run.
-  rewrite (mp_roundtrip cf v UD Hok L rest Hn).
-  pose proof (mp_ser_nonempty v Hok) as Hne.
-  destruct (mp_ser v) as [|b t]; [cbn in Hne; lia|]. reflexivity.
-Qed.
-
-(* re-serialization is byte-identical *)
-Lemma SFcompare_swap : forall a b, SFcompare b a = option_map CompOpp (SFcompare a b).
-Proof.
-  intros a b.
-  destruct a as [sa|sa| |sa ma ea]; destruct b as [sb|sb| |sb mb eb]; cbn [SFcompare option_map];
-    try reflexivity; try (destruct sa; reflexivity); try (destruct sb; reflexivity);
-    try (destruct sa, sb; reflexivity).
-  destruct sa, sb; cbn [CompOpp]; try reflexivity.
-  - rewrite (Z.compare_antisym ea eb). destruct (ea ?= eb); cbn [CompOpp]; try reflexivity.
-    rewrite (Pos.compare_cont_antisym ma mb Eq). reflexivity.
-  - rewrite (Z.compare_antisym ea eb). destruct (ea ?= eb); cbn [CompOpp]; try reflexivity.
-    rewrite (Pos.compare_cont_antisym ma mb Eq). reflexivity.
-Qed.
-
-Lemma f_eq_sym : forall a b, f_eq a b = f_eq b a.
-Proof.
-  intros a b. unfold f_eq. rewrite (SFcompare_swap a b).
-  destruct (SFcompare a b) as [[| |]|]; reflexivity.
-Qed.
-
-Lemma mp_ser_norm_f32 : forall f, mp_ser (mp_norm_f32 f) = mp_f32 f.
-Proof.
-  intros f. unfold mp_norm_f32, mp_f32. destruct (f32_fits_i64 f) eqn:Fit; cbv zeta.
-  - destruct (f_eq f (f_of_Z F32 (f_trunc f))) eqn:E; cbn [mp_ser]; [reflexivity|].
-    unfold mp_f32. rewrite Fit. cbv zeta. rewrite E. reflexivity.
-  - cbn [mp_ser]. unfold mp_f32. rewrite Fit. reflexivity.
-Qed.
-
-Lemma mp_ser_norm_f64 : forall f, mp_ser (mp_norm_f64 f) = mp_f64 f.
-Proof.
-  intros f. unfold mp_norm_f64, mp_f64. cbv zeta.
-  destruct (f_eq (fconv F64 (fconv F32 f)) f) eqn:E.
-  - apply mp_ser_norm_f32.
-  - unfold jv_of_double. cbv zeta. rewrite (f_eq_sym f), E. cbn [mp_ser].
-    unfold mp_f64. cbv zeta. rewrite E. reflexivity.
-Qed.
-
-Lemma mp_fixpoint_gen : forall L v, (nesting v <= L)%nat -> mp_ser (mp_norm v) = mp_ser v.
-Proof.
-  induction L as [|L IH]; intros v Hn.
-  - destruct v; cbn [mp_norm]; try reflexivity;
-      [apply mp_ser_norm_f32|apply mp_ser_norm_f64|cbn [nesting] in Hn; lia|cbn [nesting] in Hn; lia].
-  - destruct v; cbn [mp_norm]; try reflexivity;
-      [apply mp_ser_norm_f32|apply mp_ser_norm_f64| |].
-    + cbn [nesting] in Hn. cbn [mp_ser]. rewrite map_length, map_map.
-      f_equal. f_equal. apply map_ext_in. intros x Hx. apply IH.
-      pose proof (nesting_In jv nesting l x Hx). lia.
-    + cbn [nesting] in Hn. cbn [mp_ser]. rewrite map_length, map_map.
-      f_equal. f_equal. apply map_ext_in. intros x Hx. cbn [fst snd]. f_equal. apply IH.
-      pose proof (nesting_In _ (fun kv => nesting (snd kv)) l x Hx). cbv beta in *. lia.
-Qed.
-
-Corollary mp_fixpoint : forall v, mp_ok v -> mp_ser (mp_norm v) = mp_ser v.
-Proof. intros v _. apply (mp_fixpoint_gen (nesting v)). lia. Qed.
-
-(* ------------------------------------------------------------------------------------- *)
 (* interchange encoding of valid floats *)
 
 Lemma digits2_pos_bounds : forall m,
@@ -1275,11 +1044,12 @@ Qed.
 
 Lemma cc_opp_ge : forall m q,
   match CompOpp (Pos.compare_cont Eq m q) with Lt => false | _ => true end = true ->
-  (m <= q)%positive.
+  Z.pos m <= Z.pos q.
 Proof.
   intros m q H. assert (E : Pos.compare_cont Eq m q = Pos.compare m q) by reflexivity.
-  rewrite E in H. destruct (Pos.compare_spec m q) as [Hq|Hq|Hq]; cbn [CompOpp] in H;
-    [lia|lia|discriminate].
+  rewrite E in H. apply Pos2Z.pos_le_pos.
+  destruct (Pos.compare_spec m q) as [Hq|Hq|Hq]; cbn [CompOpp] in H;
+    [subst; apply Pos.le_refl|apply Pos.lt_le_incl; exact Hq|discriminate].
 Qed.
 
 Lemma fits_trunc_range : forall f, valid_binary 24 128 f = true -> f32_fits_i64 f = true ->
@@ -1318,8 +1088,460 @@ Proof.
   intros f Hv. split; [apply valid32_repr_ok; exact Hv|]. apply fits_trunc_range. exact Hv.
 Qed.
 
-Lemma valid64_ok : forall f, valid_binary 53 1024 f = true ->
-  valid_binary 24 128 (fconv F32 f) = true -> f64_ok f.
+(* ------------------------------------------------------------------------------------- *)
+(* binary_round always produces a valid float (SpecFloat has the definitions only) *)
+
+Lemma D_bounds : forall m, 0 < m -> 2 ^ (Zdigits2 m - 1) <= m < 2 ^ Zdigits2 m.
+Proof. intros [|q|q] H; try lia. apply digits2_pos_bounds. Qed.
+
+Lemma D_pos : forall m, 0 < m -> 1 <= Zdigits2 m.
+Proof. intros [|q|q] H; try lia. cbn. lia. Qed.
+
+Lemma D_unique : forall m k, 0 < m -> 2 ^ (k - 1) <= m < 2 ^ k -> Zdigits2 m = k.
 Proof.
-  intros f Hv Hc. split; [apply valid64_repr_ok; exact Hv|]. apply valid32_ok. exact Hc.
+  intros m k Hm Hk. pose proof (D_bounds m Hm) as Hd. pose proof (D_pos m Hm) as Hd1.
+  set (d := Zdigits2 m) in *.
+  assert (Hk1 : 1 <= k).
+  { destruct (Z_lt_le_dec k 1) as [Hlt|]; [|assumption].
+    assert (2 ^ k <= 2 ^ 0) by (apply Z.pow_le_mono_r; lia). change (2 ^ 0) with 1 in *. lia. }
+  destruct (Z_lt_le_dec d k) as [Hlt|Hge].
+  - assert (2 ^ d <= 2 ^ (k - 1)) by (apply Z.pow_le_mono_r; lia). lia.
+  - destruct (Z_lt_le_dec k d) as [Hlt|Hle]; [|lia].
+    assert (2 ^ k <= 2 ^ (d - 1)) by (apply Z.pow_le_mono_r; lia). lia.
 Qed.
+
+Lemma D_mono : forall a b, 0 < a <= b -> Zdigits2 a <= Zdigits2 b.
+Proof.
+  intros a b H. pose proof (D_bounds a ltac:(lia)) as Ha. pose proof (D_bounds b ltac:(lia)) as Hb.
+  pose proof (D_pos b ltac:(lia)) as Hb1.
+  destruct (Z_lt_le_dec (Zdigits2 b) (Zdigits2 a)) as [Hlt|]; [|assumption].
+  assert (2 ^ Zdigits2 b <= 2 ^ (Zdigits2 a - 1)) by (apply Z.pow_le_mono_r; lia). lia.
+Qed.
+
+Lemma D_div : forall m n, 0 < m -> 0 <= n -> 0 < m / 2 ^ n -> Zdigits2 (m / 2 ^ n) = Zdigits2 m - n.
+Proof.
+  intros m n Hm Hn HM. pose proof (D_bounds m Hm) as Hd. pose proof (D_pos m Hm) as Hd1.
+  set (d := Zdigits2 m) in *.
+  assert (Hpn : 0 < 2 ^ n) by (apply Z.pow_pos_nonneg; lia).
+  assert (Hmn : 2 ^ n <= m).
+  { destruct (Z_lt_le_dec m (2 ^ n)) as [Hlt|]; [|assumption]. rewrite Z.div_small in HM by lia. lia. }
+  assert (Hnd : n < d).
+  { destruct (Z_lt_le_dec n d) as [|Hle]; [assumption|].
+    assert (2 ^ d <= 2 ^ n) by (apply Z.pow_le_mono_r; lia). lia. }
+  apply D_unique; [exact HM|]. split.
+  - apply Z.div_le_lower_bound; [exact Hpn|]. rewrite <- Z.pow_add_r by lia.
+    replace (n + (d - n - 1)) with (d - 1) by lia. lia.
+  - apply Z.div_lt_upper_bound; [exact Hpn|]. rewrite <- Z.pow_add_r by lia.
+    replace (n + (d - n)) with d by lia. lia.
+Qed.
+
+Lemma D_mul_pow : forall m n, 0 < m -> 0 <= n -> Zdigits2 (m * 2 ^ n) = Zdigits2 m + n.
+Proof.
+  intros m n Hm Hn. pose proof (D_bounds m Hm) as Hd. pose proof (D_pos m Hm) as Hd1.
+  assert (Hpn : 0 < 2 ^ n) by (apply Z.pow_pos_nonneg; lia).
+  apply D_unique; [nia|].
+  replace (Zdigits2 m + n - 1) with (Zdigits2 m - 1 + n) by lia.
+  rewrite !Z.pow_add_r by lia. nia.
+Qed.
+
+Lemma shr_1_m : forall mrs, 0 <= shr_m mrs -> shr_m (shr_1 mrs) = shr_m mrs / 2.
+Proof.
+  intros [m r s] H. cbn [shr_m] in H. destruct m as [|[q|q|]|q]; cbn [shr_1 shr_m]; try lia.
+  - reflexivity.
+  - apply (Z.div_unique (Z.pos q~1) 2 (Z.pos q) 1); lia.
+  - apply (Z.div_unique (Z.pos q~0) 2 (Z.pos q) 0); lia.
+  - reflexivity.
+Qed.
+
+Lemma iter_shr_m : forall n mrs, 0 <= shr_m mrs ->
+  shr_m (SpecFloat.iter_pos shr_1 n mrs) = shr_m mrs / 2 ^ Z.pos n.
+Proof.
+  induction n as [n IH|n IH|]; intros mrs H; cbn [SpecFloat.iter_pos].
+  - assert (Hp : 0 < 2 ^ Z.pos n) by (apply Z.pow_pos_nonneg; lia).
+    assert (H1 : 0 <= shr_m (shr_1 mrs)) by (rewrite shr_1_m by exact H; apply Z.div_pos; lia).
+    assert (H2 : 0 <= shr_m (SpecFloat.iter_pos shr_1 n (shr_1 mrs))) by (rewrite IH by exact H1; apply Z.div_pos; lia).
+    rewrite IH by exact H2. rewrite IH by exact H1. rewrite shr_1_m by exact H.
+    rewrite !Z.div_div by lia. f_equal.
+    rewrite (Pos2Z.inj_xI n). replace (2 * Z.pos n + 1) with (1 + Z.pos n + Z.pos n) by lia.
+    rewrite !Z.pow_add_r by lia. change (2 ^ 1) with 2. ring.
+  - assert (Hp : 0 < 2 ^ Z.pos n) by (apply Z.pow_pos_nonneg; lia).
+    assert (H2 : 0 <= shr_m (SpecFloat.iter_pos shr_1 n mrs)) by (rewrite IH by exact H; apply Z.div_pos; lia).
+    rewrite IH by exact H2. rewrite IH by exact H.
+    rewrite !Z.div_div by lia. f_equal.
+    rewrite (Pos2Z.inj_xO n). replace (2 * Z.pos n) with (Z.pos n + Z.pos n) by lia.
+    rewrite !Z.pow_add_r by lia. ring.
+  - rewrite shr_1_m by exact H. reflexivity.
+Qed.
+
+Lemma shr_record_of_loc_m : forall m l, shr_m (shr_record_of_loc m l) = m.
+Proof. intros m [|[| |]]; reflexivity. Qed.
+
+Section RoundValid.
+  Variables p em : Z.
+  Hypothesis Hp : 1 <= p.
+
+  Let emn := SpecFloat.emin p em.
+  Let fx := fexp p em.
+
+  Lemma fx_eq : forall k, fx k = Z.max (k - p) emn.
+  Proof. reflexivity. Qed.
+
+  Lemma fx_ge_emn : forall k, emn <= fx k.
+  Proof. intros k. unfold fx, fexp. apply Z.le_max_r. Qed.
+
+  Lemma fx_mono : forall a b, a <= b -> fx a <= fx b.
+  Proof. intros a b H. unfold fx, fexp. lia. Qed.
+
+  Lemma fx_le_self : forall e, emn <= e -> fx e <= e.
+  Proof. intros e H. unfold fx, fexp. fold emn. lia. Qed.
+
+  (* shifting right to the format's exponent *)
+  Lemma shr_fexp_shift : forall m e l, 0 <= m -> e <= fx (Zdigits2 m + e) ->
+    snd (shr_fexp p em m e l) = fx (Zdigits2 m + e) /\
+    shr_m (fst (shr_fexp p em m e l)) = m / 2 ^ (fx (Zdigits2 m + e) - e).
+  Proof.
+    intros m e l Hm He. unfold shr_fexp, shr. fold fx.
+    destruct (fx (Zdigits2 m + e) - e) as [|q|q] eqn:En; cbn [fst snd].
+    - rewrite shr_record_of_loc_m. change (2 ^ 0) with 1. rewrite Z.div_1_r. split; lia.
+    - rewrite iter_shr_m by (rewrite shr_record_of_loc_m; exact Hm).
+      rewrite shr_record_of_loc_m. split; [lia|reflexivity].
+    - lia.
+  Qed.
+
+  Lemma shr_fexp_zero : forall e l, emn <= e ->
+    shr_m (fst (shr_fexp p em 0 e l)) = 0.
+  Proof.
+    intros e l He. unfold shr_fexp, shr. fold fx. cbn [Zdigits2].
+    pose proof (fx_le_self e He) as H. rewrite Z.add_0_l.
+    destruct (fx e - e) as [|q|q] eqn:En; cbn [fst]; [apply shr_record_of_loc_m|lia|apply shr_record_of_loc_m].
+  Qed.
+
+  Lemma shift_precanon : forall m e, 0 < m -> e <= fx (Zdigits2 m + e) ->
+    let e1 := fx (Zdigits2 m + e) in
+    let M := m / 2 ^ (e1 - e) in
+    0 <= M /\ (0 < M -> fx (Zdigits2 M + e1) = e1) /\ (M = 0 -> e1 = emn).
+  Proof.
+    intros m e Hm He e1 M.
+    assert (Hpn : 0 < 2 ^ (e1 - e)) by (apply Z.pow_pos_nonneg; lia).
+    split; [apply Z.div_pos; lia|]. split.
+    - intros HM. unfold M. rewrite D_div by (fold M; lia).
+      replace (Zdigits2 m - (e1 - e) + e1) with (Zdigits2 m + e) by lia. reflexivity.
+    - intros HM0. pose proof (D_bounds m Hm) as Hd.
+      assert (Hlt : m < 2 ^ (e1 - e)).
+      { destruct (Z_lt_le_dec m (2 ^ (e1 - e))) as [|Hle]; [assumption|].
+        assert (1 <= M) by (apply Z.div_le_lower_bound; lia). lia. }
+      assert (Hde : Zdigits2 m - 1 < e1 - e).
+      { apply (Z.pow_lt_mono_r_iff 2); lia. }
+      pose proof (fx_eq (Zdigits2 m + e)) as F. unfold e1 in *. lia.
+  Qed.
+
+  (* rounding, then renormalising *)
+  Lemma round_canon : forall M1 e' m1,
+    0 <= M1 -> emn <= e' -> (0 < M1 -> fx (Zdigits2 M1 + e') = e') -> (M1 = 0 -> e' = emn) ->
+    m1 = M1 \/ m1 = M1 + 1 ->
+    let r := shr_fexp p em m1 e' loc_Exact in
+    0 <= shr_m (fst r) /\ (0 < shr_m (fst r) -> fx (Zdigits2 (shr_m (fst r)) + snd r) = snd r).
+  Proof.
+    intros M1 e' m1 HM1 He' Hc Hz Hm1 r.
+    destruct (Z.eq_dec m1 0) as [->|Hnz].
+    { unfold r. rewrite shr_fexp_zero by exact He'. split; lia. }
+    assert (Hm1p : 0 < m1) by lia.
+    assert (Hle : e' <= fx (Zdigits2 m1 + e')).
+    { destruct (Z.eq_dec M1 0) as [HM0|HMnz].
+      - assert (m1 = 1) by lia. subst m1. rewrite (Hz HM0). cbn [Zdigits2 digits2_pos].
+        apply fx_ge_emn.
+      - rewrite <- (Hc ltac:(lia)) at 1. apply fx_mono.
+        pose proof (D_mono M1 m1 ltac:(lia)). lia. }
+    destruct (shr_fexp_shift m1 e' loc_Exact ltac:(lia) Hle) as [E1 E2]. fold r in E1, E2.
+    destruct (shift_precanon m1 e' Hm1p Hle) as (P1 & P2 & _). cbv zeta in P1, P2.
+    rewrite E1, E2. split; assumption.
+  Qed.
+
+  Lemma round_nearest_even_cases : forall m l,
+    round_nearest_even m l = m \/ round_nearest_even m l = m + 1.
+  Proof. intros m [|[| |]]; cbn [round_nearest_even]; auto. destruct (Z.even m); auto. Qed.
+
+  Lemma binary_round_aux_valid : forall sx mx ex lx, 0 < mx -> ex <= fx (Zdigits2 mx + ex) ->
+    valid_binary p em (binary_round_aux p em sx mx ex lx) = true.
+  Proof.
+    intros sx mx ex lx Hmx Hex. unfold binary_round_aux.
+    destruct (shr_fexp_shift mx ex lx ltac:(lia) Hex) as [E1 E2].
+    destruct (shift_precanon mx ex Hmx Hex) as (P1 & P2 & P3). cbv zeta in P1, P2, P3.
+    destruct (shr_fexp p em mx ex lx) as [mrs' e'] eqn:Es. cbn [fst snd] in E1, E2.
+    rewrite <- E2 in P1, P2, P3. rewrite <- E1 in P2, P3.
+    assert (He' : emn <= e') by (rewrite E1; apply fx_ge_emn).
+    pose proof (round_canon (shr_m mrs') e'
+                  (round_nearest_even (shr_m mrs') (loc_of_shr_record mrs'))
+                  P1 He' P2 P3 (round_nearest_even_cases _ _)) as [R1 R2].
+    cbv zeta in R1, R2.
+    destruct (shr_fexp p em (round_nearest_even (shr_m mrs') (loc_of_shr_record mrs')) e' loc_Exact)
+      as [mrs'' e''] eqn:Es2.
+    cbn [fst snd] in R1, R2.
+    destruct (shr_m mrs'') as [|q|q] eqn:Em; [reflexivity| |reflexivity].
+    destruct (Zle_bool e'' (em - p)) eqn:Eb; [|reflexivity].
+    cbn [valid_binary]. unfold bounded, canonical_mantissa. rewrite Eb, andb_true_r.
+    specialize (R2 ltac:(lia)). cbn [Zdigits2] in R2. fold fx. rewrite R2.
+    apply Zeq_is_eq_bool. reflexivity.
+  Qed.
+
+  Lemma binary_round_valid : forall sx mx ex, valid_binary p em (binary_round p em sx mx ex) = true.
+  Proof.
+    intros sx mx ex. unfold binary_round, shl_align. fold fx.
+    set (ex' := fx (Z.pos (digits2_pos mx) + ex)).
+    destruct (ex' - ex) as [|d|d] eqn:Ed.
+    - apply binary_round_aux_valid; [lia|]. cbn [Zdigits2]. fold ex'. lia.
+    - apply binary_round_aux_valid; [lia|]. cbn [Zdigits2]. fold ex'. lia.
+    - apply binary_round_aux_valid; [lia|].
+      rewrite shift_pos_correct. change (Z.pow_pos 2 d) with (2 ^ Z.pos d).
+      rewrite Z.mul_comm. rewrite D_mul_pow by lia. cbn [Zdigits2].
+      replace (Z.pos (digits2_pos mx) + Z.pos d + ex') with (Z.pos (digits2_pos mx) + ex) by lia.
+      fold ex'. lia.
+  Qed.
+
+  Lemma binary_normalize_valid : forall m e sz, valid_binary p em (binary_normalize p em m e sz) = true.
+  Proof. intros [|q|q] e sz; cbn [binary_normalize]; [reflexivity|apply binary_round_valid..]. Qed.
+End RoundValid.
+
+Lemma fconv_valid32 : forall f, valid_binary 24 128 (fconv F32 f) = true.
+Proof.
+  intros f. destruct f as [s|s| |s m e]; cbn [fconv]; try reflexivity.
+  apply (binary_normalize_valid 24 128). lia.
+Qed.
+
+Lemma valid64_ok : forall f, valid_binary 53 1024 f = true -> f64_ok f.
+Proof.
+  intros f Hv. split; [apply valid64_repr_ok; exact Hv|]. apply valid32_ok.
+  apply fconv_valid32.
+Qed.
+
+(* ------------------------------------------------------------------------------------- *)
+(* Part 4 — whole documents *)
+
+Fixpoint mp_norm (v : jv) : jv :=
+  match v with
+  | JFloat f => mp_norm_f32 f
+  | JDouble f => mp_norm_f64 f
+  | JArr l => JArr (map mp_norm l)
+  | JObj l => JObj (map (fun kv => (fst kv, mp_norm (snd kv))) l)
+  | _ => v
+  end.
+
+Definition str_ok (s : bytes) : Prop :=
+  Forall (fun b => (b < 256)%N) s /\ Z.of_nat (length s) <= max_string_length.
+
+Fixpoint mp_ok (v : jv) : Prop :=
+  match v with
+  | JNull | JBool _ => True
+  | JInt z => - 2 ^ 63 <= z < 2 ^ 64
+  | JFloat f => valid_binary 24 128 f = true
+  | JDouble f => valid_binary 53 1024 f = true
+  | JStr s => str_ok s
+  | JRaw _ => False
+  | JArr l => Z.of_nat (length l) < 2 ^ 32 /\ fold_right (fun x P => mp_ok x /\ P) True l
+  | JObj l => Z.of_nat (length l) < 2 ^ 32 /\
+              fold_right (fun kv P => (str_ok (fst kv) /\ mp_ok (snd kv)) /\ P) True l
+  end.
+
+Lemma fold_and_In : forall (A : Type) (Q : A -> Prop) (l : list A),
+  fold_right (fun x P => Q x /\ P) True l -> forall x, In x l -> Q x.
+Proof.
+  intros A Q l. induction l as [|y l IH]; intros H x Hx; cbn in *; [contradiction|].
+  destruct H as [Hy Hl]. destruct Hx as [<-|Hx]; auto.
+Qed.
+
+Lemma nesting_In : forall (A : Type) (g : A -> nat) (l : list A) x, In x l ->
+  (g x <= fold_right (fun x m => Nat.max (g x) m) 0 l)%nat.
+Proof.
+  intros A g l. induction l as [|y l IH]; intros x Hx; cbn in *; [contradiction|].
+  destruct Hx as [<-|Hx]; [lia|]. specialize (IH x Hx). lia.
+Qed.
+
+Lemma mp_int_nonempty : forall z, (1 <= length (mp_int z))%nat.
+Proof.
+  intros z. unfold mp_int, mp_uint.
+  destruct (0 <? z).
+  - destruct (z <=? 0x7F); [cbn; lia|]. destruct (z <=? 0xFF); [cbn; lia|].
+    destruct (z <=? 0xFFFF); [cbn [length]; lia|]. destruct (z <=? 0xFFFFFFFF); cbn [length]; lia.
+  - destruct (-0x20 <=? z); [cbn; lia|]. destruct (-0x80 <=? z); [cbn; lia|].
+    destruct (-0x8000 <=? z); [cbn [length]; lia|]. destruct (-0x80000000 <=? z); cbn [length]; lia.
+Qed.
+
+Lemma mp_f32_nonempty : forall f, (1 <= length (mp_f32 f))%nat.
+Proof.
+  intros f. unfold mp_f32. destruct (f32_fits_i64 f); [cbv zeta; destruct (f_eq _ _)|];
+    try apply mp_int_nonempty; cbn [length]; lia.
+Qed.
+
+Lemma mp_str_nonempty : forall s, (1 <= length (mp_str s))%nat.
+Proof.
+  intros s. unfold mp_str. rewrite app_length, mp_str_header_length.
+  destruct (_ <? 32); [lia|]. destruct (_ <? 256); [lia|]. destruct (_ <? 65536); lia.
+Qed.
+
+Lemma mp_ser_nonempty : forall v, mp_ok v -> (1 <= length (mp_ser v))%nat.
+Proof.
+  intros v H. destruct v; cbn [mp_ser].
+  - cbn; lia.
+  - cbn; lia.
+  - apply mp_int_nonempty.
+  - apply mp_f32_nonempty.
+  - unfold mp_f64. destruct (f_eq _ _); [apply mp_f32_nonempty|cbn [length]; lia].
+  - apply mp_str_nonempty.
+  - destruct H.
+  - rewrite app_length, mp_arr_header_length.
+    destruct (_ <? 16); [lia|]. destruct (_ <? 65536); lia.
+  - rewrite app_length, mp_map_header_length.
+    destruct (_ <? 16); [lia|]. destruct (_ <? 65536); lia.
+Qed.
+
+Lemma body_nil : forall cf pv' Lz rest k,
+  mp_body cf pv' Lz None (mk (bz 0xC0 :: rest) k) = (Ok, JNull, mk rest (k + 1)).
+Proof. reflexivity. Qed.
+Lemma body_false : forall cf pv' Lz rest k,
+  mp_body cf pv' Lz None (mk (bz 0xC2 :: rest) k) = (Ok, JBool false, mk rest (k + 1)).
+Proof. reflexivity. Qed.
+Lemma body_true : forall cf pv' Lz rest k,
+  mp_body cf pv' Lz None (mk (bz 0xC3 :: rest) k) = (Ok, JBool true, mk rest (k + 1)).
+Proof. reflexivity. Qed.
+
+Theorem mp_roundtrip_gen : forall cf, use_double cf = true -> forall L v, mp_ok v ->
+  (nesting v <= L)%nat -> forall rest k,
+  mp_parse cf L None true (mk (mp_ser v ++ rest) k) =
+    (Ok, mp_norm v, mk rest (k + N.of_nat (length (mp_ser v)))).
+Proof.
+  intros cf UD. induction L as [|L IH]; intros v Hok Hn rest k; rewrite mp_parse_eq.
+  - destruct v; cbn [mp_ser mp_norm]; cbn [mp_ok] in Hok.
+    + apply body_nil.
+    + destruct b; [apply body_true|apply body_false].
+    + apply mp_int_body; exact Hok.
+    + apply mp_f32_body; apply valid32_ok; exact Hok.
+    + apply mp_f64_body; [exact UD|apply valid64_ok; exact Hok].
+    + apply mp_str_body; apply Hok.
+    + destruct Hok.
+    + cbn [nesting] in Hn. lia.
+    + cbn [nesting] in Hn. lia.
+  - destruct v; cbn [mp_ser mp_norm]; cbn [mp_ok] in Hok.
+    + apply body_nil.
+    + destruct b; [apply body_true|apply body_false].
+    + apply mp_int_body; exact Hok.
+    + apply mp_f32_body; apply valid32_ok; exact Hok.
+    + apply mp_f64_body; [exact UD|apply valid64_ok; exact Hok].
+    + apply mp_str_body; apply Hok.
+    + destruct Hok.
+    + destruct Hok as [Hlen Hall]. cbn [nesting] in Hn. rewrite <- app_assoc.
+      rewrite arr_header_body by lia. unfold arr_payload. cbn [is_O pv_of].
+      rewrite clip_count_exact.
+      2:{ rewrite app_length.
+          pose proof (concat_length_ge jv mp_ser l
+                        (fun x Hx => mp_ser_nonempty x (fold_and_In jv mp_ok l Hall x Hx))). lia. }
+      rewrite (array_loop_rt (mp_parse cf L) mp_norm l).
+      2:{ intros x Hx rest' k'. apply IH.
+          - exact (fold_and_In jv mp_ok l Hall x Hx).
+          - pose proof (nesting_In jv nesting l x Hx). lia. }
+      cbn [app]. rewrite reads_app, app_length. reflexivity.
+    + destruct Hok as [Hlen Hall]. cbn [nesting] in Hn. rewrite <- app_assoc.
+      rewrite map_header_body by lia. unfold map_payload. cbn [is_O pv_of].
+      change (map (fun kv : bytes * jv => mp_str (fst kv) ++ mp_ser (snd kv)) l)
+        with (map ser_member l).
+      pose proof (fold_and_In _ (fun kv => str_ok (fst kv) /\ mp_ok (snd kv)) l Hall) as Hin.
+      rewrite clip_count_exact.
+      2:{ rewrite app_length.
+          assert (length l <= length (concat (map ser_member l)))%nat.
+          { apply concat_length_ge. intros x Hx. unfold ser_member. rewrite app_length.
+            pose proof (mp_str_nonempty (fst x)). lia. }
+          lia. }
+      rewrite (object_loop_rt (mp_parse cf L) mp_norm l).
+      2:{ intros x Hx. destruct (Hin x Hx) as [[_ Hk] Hv]. split; [exact Hk|].
+          intros rest' k'. apply IH; [exact Hv|].
+          pose proof (nesting_In _ (fun kv => nesting (snd kv)) l x Hx). cbv beta in *. lia. }
+      cbn [app]. rewrite reads_app, app_length. reflexivity.
+Qed.
+
+Theorem mp_roundtrip : forall cf v, use_double cf = true -> mp_ok v -> forall L rest,
+  (nesting v <= L)%nat ->
+  mp_parse cf L None true {| m_rest := mp_ser v ++ rest; m_reads := 0 |}
+    = (Ok, mp_norm v, {| m_rest := rest; m_reads := N.of_nat (length (mp_ser v)) |}).
+Proof.
+  intros cf v UD Hok L rest Hn.
+  exact (mp_roundtrip_gen cf UD L v Hok Hn rest 0%N).
+Qed.
+
+Corollary mp_run_roundtrip : forall cf v L, use_double cf = true -> mp_ok v -> (nesting v <= L)%nat ->
+  mp_run cf None L (mp_ser v) =
+    {| mp_err := Ok; mp_doc := mp_norm v;
+       mp_rd := {| m_rest := []; m_reads := N.of_nat (length (mp_ser v)) |} |}.
+Proof.
+  intros cf v L UD Hok Hn. unfold mp_run.
+  pose proof (mp_roundtrip cf v UD Hok L [] Hn) as H. rewrite app_nil_r in H. rewrite H.
+  pose proof (mp_ser_nonempty v Hok) as Hne.
+  destruct (mp_ser v) as [|b t]; [cbn in Hne; lia|]. reflexivity.
+Qed.
+
+(* C16 for MessagePack: the reader stops exactly after one object, whatever follows *)
+Corollary mp_run_roundtrip_trailing : forall cf v L rest, use_double cf = true -> mp_ok v ->
+  (nesting v <= L)%nat ->
+  mp_run cf None L (mp_ser v ++ rest) =
+    {| mp_err := Ok; mp_doc := mp_norm v;
+       mp_rd := {| m_rest := rest; m_reads := N.of_nat (length (mp_ser v)) |} |}.
+Proof.
+  intros cf v L rest UD Hok Hn. unfold mp_run.
+  rewrite (mp_roundtrip cf v UD Hok L rest Hn).
+  pose proof (mp_ser_nonempty v Hok) as Hne.
+  destruct (mp_ser v) as [|b t]; [cbn in Hne; lia|]. reflexivity.
+Qed.
+
+(* re-serialization is byte-identical *)
+Lemma SFcompare_swap : forall a b, SFcompare b a = option_map CompOpp (SFcompare a b).
+Proof.
+  intros a b.
+  destruct a as [sa|sa| |sa ma ea]; destruct b as [sb|sb| |sb mb eb]; cbn [SFcompare option_map];
+    try reflexivity; try (destruct sa; reflexivity); try (destruct sb; reflexivity);
+    try (destruct sa, sb; reflexivity).
+  destruct sa, sb; cbn [CompOpp]; try reflexivity.
+  - rewrite (Z.compare_antisym ea eb). destruct (ea ?= eb); cbn [CompOpp]; try reflexivity.
+    rewrite (Pos.compare_cont_antisym ma mb Eq). reflexivity.
+  - rewrite (Z.compare_antisym ea eb). destruct (ea ?= eb); cbn [CompOpp]; try reflexivity.
+    rewrite (Pos.compare_cont_antisym ma mb Eq). reflexivity.
+Qed.
+
+Lemma f_eq_sym : forall a b, f_eq a b = f_eq b a.
+Proof.
+  intros a b. unfold f_eq. rewrite (SFcompare_swap a b).
+  destruct (SFcompare a b) as [[| |]|]; reflexivity.
+Qed.
+
+Lemma mp_ser_norm_f32 : forall f, mp_ser (mp_norm_f32 f) = mp_f32 f.
+Proof.
+  intros f. unfold mp_norm_f32, mp_f32. destruct (f32_fits_i64 f) eqn:Fit; cbv zeta.
+  - destruct (f_eq f (f_of_Z F32 (f_trunc f))) eqn:E; cbn [mp_ser]; [reflexivity|].
+    unfold mp_f32. rewrite Fit. cbv zeta. rewrite E. reflexivity.
+  - cbn [mp_ser]. unfold mp_f32. rewrite Fit. reflexivity.
+Qed.
+
+Lemma mp_ser_norm_f64 : forall f, mp_ser (mp_norm_f64 f) = mp_f64 f.
+Proof.
+  intros f. unfold mp_norm_f64, mp_f64. cbv zeta.
+  destruct (f_eq (fconv F64 (fconv F32 f)) f) eqn:E.
+  - apply mp_ser_norm_f32.
+  - unfold jv_of_double. cbv zeta. rewrite (f_eq_sym f), E. cbn [mp_ser].
+    unfold mp_f64. cbv zeta. rewrite E. reflexivity.
+Qed.
+
+Lemma mp_fixpoint_gen : forall L v, (nesting v <= L)%nat -> mp_ser (mp_norm v) = mp_ser v.
+Proof.
+  induction L as [|L IH]; intros v Hn.
+  - destruct v; cbn [mp_norm]; try reflexivity;
+      [apply mp_ser_norm_f32|apply mp_ser_norm_f64|cbn [nesting] in Hn; lia|cbn [nesting] in Hn; lia].
+  - destruct v; cbn [mp_norm]; try reflexivity;
+      [apply mp_ser_norm_f32|apply mp_ser_norm_f64| |].
+    + cbn [nesting] in Hn. cbn [mp_ser]. rewrite map_length, map_map.
+      f_equal. f_equal. apply map_ext_in. intros x Hx. apply IH.
+      pose proof (nesting_In jv nesting l x Hx). lia.
+    + cbn [nesting] in Hn. cbn [mp_ser]. rewrite map_length, map_map.
+      f_equal. f_equal. apply map_ext_in. intros x Hx. cbn [fst snd]. f_equal. apply IH.
+      pose proof (nesting_In _ (fun kv => nesting (snd kv)) l x Hx). cbv beta in *. lia.
+Qed.
+
+Corollary mp_fixpoint : forall v, mp_ok v -> mp_ser (mp_norm v) = mp_ser v.
+Proof. intros v _. apply (mp_fixpoint_gen (nesting v)). lia. Qed.
+
